@@ -36,7 +36,7 @@ type Beh struct {
 	// Deferred: the hook raises its value from a deferred call while another value (a panic for BehExit, an Exit for
 	// BehPanic) is already in flight inside the same hook
 	Deferred bool
-	PanKind  int // what BehPanic raises: 0 *PanicValue, 1 an error value, 2 a runtime error (nil map write), 3 a string
+	PanKind  int // what BehPanic raises (4: an error with an ExitCode method, 5: a []string): 0 *PanicValue, 1 an error value, 2 a runtime error (nil map write), 3 a string
 }
 
 // Cmd is a command of the tree
@@ -76,6 +76,8 @@ type App struct {
 	Root    *Cmd
 	Policy  flag.ErrorHandling
 	Version bool // declares app.Version(<names>, VersionText)
+	// VersionLate: the version flag is declared after the root's own options and arguments instead of first
+	VersionLate bool
 	// VersionStr, when set, is declared instead of VersionText (an empty string, an indented multi-line banner)
 	VersionStr *string
 	Builtin    bool // declare with the built-in Bool/String/Strings types instead of recording custom types
@@ -84,6 +86,8 @@ type App struct {
 	// PolicyLate: the policy is assigned to the app after all declarations instead of right after cli.App(): commands
 	// declared before keep what they copied at declaration time (the default, ExitOnError)
 	PolicyLate bool
+	// SparseSetBy: one declaration in three is made without a SetByUser variable (listed in Obs.NoSetBy)
+	SparseSetBy bool
 	// CustomInt: integer-typed options and arguments are declared as user-defined value types (VarOpt / VarArg) whose
 	// Set refuses non-integers, instead of the built-in Int / Ints types
 	CustomInt bool
@@ -107,9 +111,21 @@ func SamePanic(got, raised interface{}) bool {
 		re, ok := got.(runtime.Error)
 		return ok && strings.Contains(re.Error(), "assignment to entry in nil map")
 	}
+	if rs, ok := raised.([]string); ok {
+		// an uncomparable value: the same slice (same backing array and length) must come back
+		gs, ok := got.([]string)
+		return ok && len(gs) == len(rs) && len(gs) > 0 && &gs[0] == &rs[0]
+	}
 	defer func() { recover() }()
 	return got == raised
 }
+
+// ExitLikeError is an error value that, like *exec.ExitError, has an ExitCode method: it is a panic value like any
+// other, not an Exit
+type ExitLikeError struct{ Hook string }
+
+func (e *ExitLikeError) Error() string { return "child failed in " + e.Hook }
+func (e *ExitLikeError) ExitCode() int { return 4 }
 
 // PanicValue is what a hook with BehPanic raises; identity is checked by C05
 type PanicValue struct{ Hook string }
@@ -148,6 +164,8 @@ type Obs struct {
 	SetBy map[int]map[string]bool
 	// SetByAt: the same flags as seen from inside each Before / After hook, by event name (B0, A2)
 	SetByAt map[string]map[int]map[string]bool
+	// NoSetBy: the parameters declared without a SetByUser variable (App.SparseSetBy), per node id
+	NoSetBy map[int]map[string]bool
 	// InitSeen (recording mode): what the variables of each ancestor held when a sub-command's initializer ran, by
 	// sub-command id then ancestor id (the documented pattern: a child's initializer reads its parent's options)
 	InitSeen map[int]map[int]Binding
@@ -291,12 +309,15 @@ func buildApp(a *App, o *Obs, setEnv *[]string) (*cli.Cli, map[int]*recs, func(c
 	if !a.PolicyLate {
 		app.ErrorHandling = a.Policy
 	}
-	if a.Version {
+	declVersion := func() {
 		vt := VersionText
 		if a.VersionStr != nil {
 			vt = *a.VersionStr
 		}
 		app.Version(a.Root.VersionOptNames(), vt)
+	}
+	if a.Version && !a.VersionLate {
+		declVersion()
 	}
 	all := map[int]*recs{}
 	var mkHook func(t *Cmd, tag string, b Beh, snapshot bool) func()
@@ -334,6 +355,14 @@ func buildApp(a *App, o *Obs, setEnv *[]string) (*cli.Cli, map[int]*recs, func(c
 				case 3:
 					o.PanVals[name] = "string raised by " + name
 					panic("string raised by " + name)
+				case 4:
+					e := &ExitLikeError{Hook: name}
+					o.PanVals[name] = e
+					panic(e)
+				case 5:
+					v := []string{"uncomparable value raised by", name}
+					o.PanVals[name] = v
+					panic(v)
 				}
 				pv := &PanicValue{Hook: name}
 				o.PanVals[name] = pv
@@ -379,6 +408,11 @@ func buildApp(a *App, o *Obs, setEnv *[]string) (*cli.Cli, map[int]*recs, func(c
 				}
 				sb := new(bool)
 				rs.sbo[od] = sb
+				sbArg := sb
+				if a.SparseSetBy && (t.ID+i)%3 == 0 {
+					sbArg = nil // declared without a SetByUser variable
+					o.markNoSetBy(t.ID, "opt:"+od.Names[0])
+				}
 				name := strings.Join(od.Names, " ")
 				if a.Builtin {
 					ptr := (t.ID+i)%2 == 1 // every other declaration goes through the *Ptr entry point
@@ -386,51 +420,51 @@ func buildApp(a *App, o *Obs, setEnv *[]string) (*cli.Cli, map[int]*recs, func(c
 					case od.Int && a.CustomInt:
 						if od.Multi {
 							cv := &CustomInts{CustomInt{Multi: true}}
-							c.Var(cli.VarOpt{Name: name, Value: cv, EnvVar: env, SetByUser: sb})
+							c.Var(cli.VarOpt{Name: name, Value: cv, EnvVar: env, SetByUser: sbArg})
 							rs.bo[od] = cv.Strs
 						} else {
 							cv := &CustomInt{}
-							c.Var(cli.VarOpt{Name: name, Value: cv, EnvVar: env, SetByUser: sb})
+							c.Var(cli.VarOpt{Name: name, Value: cv, EnvVar: env, SetByUser: sbArg})
 							rs.bo[od] = cv.Strs
 						}
 					case od.Int && od.Multi:
 						p := new([]int)
 						if ptr {
-							c.IntsPtr(p, cli.IntsOpt{Name: name, EnvVar: env, SetByUser: sb})
+							c.IntsPtr(p, cli.IntsOpt{Name: name, EnvVar: env, SetByUser: sbArg})
 						} else {
-							p = c.Ints(cli.IntsOpt{Name: name, EnvVar: env, SetByUser: sb})
+							p = c.Ints(cli.IntsOpt{Name: name, EnvVar: env, SetByUser: sbArg})
 						}
 						rs.bo[od] = func() []string { return intsStr(*p) }
 					case od.Int:
 						p := new(int)
 						if ptr {
-							c.IntPtr(p, cli.IntOpt{Name: name, EnvVar: env, SetByUser: sb})
+							c.IntPtr(p, cli.IntOpt{Name: name, EnvVar: env, SetByUser: sbArg})
 						} else {
-							p = c.Int(cli.IntOpt{Name: name, EnvVar: env, SetByUser: sb})
+							p = c.Int(cli.IntOpt{Name: name, EnvVar: env, SetByUser: sbArg})
 						}
 						rs.bo[od] = func() []string { return []string{fmt.Sprint(*p)} }
 					case od.Flag:
 						p := new(bool)
 						if ptr {
-							c.BoolPtr(p, cli.BoolOpt{Name: name, EnvVar: env, SetByUser: sb})
+							c.BoolPtr(p, cli.BoolOpt{Name: name, EnvVar: env, SetByUser: sbArg})
 						} else {
-							p = c.Bool(cli.BoolOpt{Name: name, EnvVar: env, SetByUser: sb})
+							p = c.Bool(cli.BoolOpt{Name: name, EnvVar: env, SetByUser: sbArg})
 						}
 						rs.bo[od] = func() []string { return []string{fmt.Sprint(*p)} }
 					case od.Multi:
 						p := new([]string)
 						if ptr {
-							c.StringsPtr(p, cli.StringsOpt{Name: name, EnvVar: env, SetByUser: sb})
+							c.StringsPtr(p, cli.StringsOpt{Name: name, EnvVar: env, SetByUser: sbArg})
 						} else {
-							p = c.Strings(cli.StringsOpt{Name: name, EnvVar: env, SetByUser: sb})
+							p = c.Strings(cli.StringsOpt{Name: name, EnvVar: env, SetByUser: sbArg})
 						}
 						rs.bo[od] = func() []string { return append([]string{}, *p...) }
 					default:
 						p := new(string)
 						if ptr {
-							c.StringPtr(p, cli.StringOpt{Name: name, EnvVar: env, SetByUser: sb})
+							c.StringPtr(p, cli.StringOpt{Name: name, EnvVar: env, SetByUser: sbArg})
 						} else {
-							p = c.String(cli.StringOpt{Name: name, EnvVar: env, SetByUser: sb})
+							p = c.String(cli.StringOpt{Name: name, EnvVar: env, SetByUser: sbArg})
 						}
 						rs.bo[od] = func() []string { return []string{*p} }
 					}
@@ -438,13 +472,18 @@ func buildApp(a *App, o *Obs, setEnv *[]string) (*cli.Cli, map[int]*recs, func(c
 				}
 				rc := &Rec{FlagLike: od.Flag}
 				rs.o[od] = rc
-				c.Var(cli.VarOpt{Name: name, Value: rc, EnvVar: env, SetByUser: sb})
+				c.Var(cli.VarOpt{Name: name, Value: rc, EnvVar: env, SetByUser: sbArg, HideValue: od.Hide})
 			}
 		}
 		declArgs := func() {
 			for i, ad := range t.Prog.Args {
 				sb := new(bool)
 				rs.sba[ad] = sb
+				sbArg := sb
+				if a.SparseSetBy && (t.ID+i)%3 == 1 {
+					sbArg = nil
+					o.markNoSetBy(t.ID, "arg:"+ad.Name)
+				}
 				aenv := ""
 				if ad.EnvSet {
 					aenv = fmt.Sprintf("VPE_%d_A%d", t.ID, i)
@@ -455,23 +494,23 @@ func buildApp(a *App, o *Obs, setEnv *[]string) (*cli.Cli, map[int]*recs, func(c
 				}
 				if a.Builtin && ad.Int && a.CustomInt {
 					cv := &CustomInts{CustomInt{Multi: true}}
-					c.Var(cli.VarArg{Name: ad.Name, Value: cv, SetByUser: sb, EnvVar: aenv})
+					c.Var(cli.VarArg{Name: ad.Name, Value: cv, SetByUser: sbArg, EnvVar: aenv})
 					rs.ba[ad] = cv.Strs
 					continue
 				}
 				if a.Builtin && ad.Int {
-					p := c.Ints(cli.IntsArg{Name: ad.Name, SetByUser: sb, EnvVar: aenv})
+					p := c.Ints(cli.IntsArg{Name: ad.Name, SetByUser: sbArg, EnvVar: aenv})
 					rs.ba[ad] = func() []string { return intsStr(*p) }
 					continue
 				}
 				if a.Builtin {
-					p := c.Strings(cli.StringsArg{Name: ad.Name, SetByUser: sb, EnvVar: aenv})
+					p := c.Strings(cli.StringsArg{Name: ad.Name, SetByUser: sbArg, EnvVar: aenv})
 					rs.ba[ad] = func() []string { return append([]string{}, *p...) }
 					continue
 				}
 				rc := &Rec{}
 				rs.a[ad] = rc
-				c.Var(cli.VarArg{Name: ad.Name, Value: rc, SetByUser: sb, EnvVar: aenv})
+				c.Var(cli.VarArg{Name: ad.Name, Value: rc, SetByUser: sbArg, EnvVar: aenv, HideValue: ad.Hide})
 			}
 		}
 		if a.ArgsFirst {
@@ -522,6 +561,9 @@ func buildApp(a *App, o *Obs, setEnv *[]string) (*cli.Cli, map[int]*recs, func(c
 		}
 	}
 	build(app.Cmd, a.Root)
+	if a.Version && a.VersionLate {
+		declVersion()
+	}
 	if a.PolicyLate {
 		app.ErrorHandling = a.Policy
 	}
@@ -578,6 +620,16 @@ func Run(a *App, argv []string) *Obs {
 	o.Stderr = buf.String()
 	o.Stdout = obuf.String()
 	return o
+}
+
+func (o *Obs) markNoSetBy(tid int, name string) {
+	if o.NoSetBy == nil {
+		o.NoSetBy = map[int]map[string]bool{}
+	}
+	if o.NoSetBy[tid] == nil {
+		o.NoSetBy[tid] = map[string]bool{}
+	}
+	o.NoSetBy[tid][name] = true
 }
 
 func (o *Obs) snapSetBy(ev string, all map[int]*recs) {
